@@ -157,6 +157,9 @@ class Samples(SamplesInterface, ABC):
         result.__dict__.update(self.__dict__)
         result._names = None
         result._paths = None
+        # the copy is about to be given another model / sample list (minimise, with_paths,
+        # without_paths, subsamples): the parent's cached best-fit instance is not its own
+        result._instance = None
         return result
 
     def _check_addition(self, other: "Samples"):
